@@ -41,6 +41,7 @@ def jobs(tier):
         mk('C11', 'errors/parent/only_failing', S.errors('Custom', 'parent', only_failing=True), witnesses=W),
         mk('C11', 'sequential_awaited_children_with_errors', S.sequential_awaited_children_with_errors(), witnesses=W),
         mk('C11', 'errors/parent/TimeoutError/ret_exc', S.errors('TimeoutError', 'parent', ret_exc=True), witnesses=W),
+        mk('C11', 'errors/parent/TimeoutError/sync', S.errors('TimeoutError', 'parent', sync=True), witnesses=W),
         mk('C11', 'errors/awaited_child/only_failing/ret_exc', S.errors('KeyError', 'awaited_child', ret_exc=True, only_failing=True), witnesses=W),
         mk('C11', 'par_parent_serial_child', S.par_parent_serial_child(), witnesses=W),
     ]
